@@ -304,6 +304,16 @@ class LoopSpec:
         view0 = View(env, rename)
         ctx.check(f"{self.name}/invariant_entry", self.invariant(view0, 0))
         olds = {n: env.vars.get(n) for n in modifies}
+        # An accumulator initialised with the int literal 0 and then updated with `acc += weight` is a float from the
+        # first iteration on: the arbitrary value standing for "after k iterations" must not be integer-kinded unless
+        # every update of the name in the body is by an integer literal (a counter).  A real-kinded stand-in for what is
+        # in fact an integer is the sound direction.
+        from fractions import Fraction as _Fr
+        for n in list(olds):
+            o = olds[n]
+            if (isinstance(o, int) and not isinstance(o, bool)) or (isinstance(o, Sym) and o.kind == "int"):
+                if not _only_integer_updates(st.body, n):
+                    olds[n] = _Fr(o) if isinstance(o, int) else Sym(z3.ToReal(o.t), "float")
         phase = ctx.fresh("loop_phase", "bool")
         if ctx.branch(phase):
             # inductive step at an arbitrary iteration k
@@ -337,6 +347,30 @@ class LoopSpec:
                     env.vars[n] = r
                     continue
             env.vars[n] = havoc_like(ctx, old, f"{n}@{tag}")
+
+
+def _only_integer_updates(body, name):
+    """Every store to `name` in the loop body is `name += <int literal>` / `name -= <int literal>` / `name = name +- <int
+    literal>` / `name = <int literal>`."""
+    def int_lit(e):
+        return isinstance(e, ast.Constant) and isinstance(e.value, int) and not isinstance(e.value, bool)
+
+    for st in body:
+        for n in ast.walk(st):
+            if isinstance(n, ast.AugAssign) and isinstance(n.target, ast.Name) and n.target.id == name:
+                if not (isinstance(n.op, (ast.Add, ast.Sub)) and int_lit(n.value)):
+                    return False
+            elif isinstance(n, ast.Assign) and any(isinstance(t, ast.Name) and t.id == name for t in n.targets):
+                v = n.value
+                ok = int_lit(v) or (isinstance(v, ast.BinOp) and isinstance(v.op, (ast.Add, ast.Sub)) and isinstance(v.left, ast.Name)
+                                    and v.left.id == name and int_lit(v.right))
+                if not ok:
+                    return False
+            elif isinstance(n, (ast.For, ast.comprehension)) and any(isinstance(t, ast.Name) and t.id == name for t in ast.walk(n.target)):
+                return False
+            elif isinstance(n, ast.Assign) and any(isinstance(t, (ast.Tuple, ast.List)) and any(isinstance(e, ast.Name) and e.id == name for e in ast.walk(t)) for t in n.targets):
+                return False
+    return True
 
 
 class _ConcreteItems:
